@@ -360,6 +360,12 @@ fn check_c02() {
                     if let (Some(r), Some(v)) = (r, v) { if m != Some(r * v) { falsified("PartialDSym::m", format!("{} ({},{},{})", txt, i, j, d), format!("m={:?} r={} v={}", m, r, v)); } }
                     if (r, v, m) != (ds.r(j, i, d), ds.v(j, i, d), ds.m(j, i, d)) { falsified("PartialDSym::r/v/m", format!("{} ({},{},{})", txt, i, j, d), "not symmetric in i,j".into()); }
                     if i.abs_diff(j) <= 1 { if let Some(len) = orbit_len(&ds, i, j, d) { if r != Some(len) { falsified("PartialDSym::r", format!("{} r({},{},{})", txt, i, j, d), format!("{:?} but the orbit has length {}", r, len)); } } }
+                    else {
+                        // non-adjacent indices: where the two operations commute at d the cycle has length 1 or 2 and r must be that length, v = 2 / r
+                        if let Some(len) = orbit_len(&ds, i, j, d) { if len <= 2 && ds.op(j, ds.op(i, ds.op(j, ds.op(i, d).unwrap()).unwrap()).unwrap()) == Some(d) {
+                            if r != Some(len) { falsified("PartialDSym::r", format!("{} r({},{},{})", txt, i, j, d), format!("{:?} but the orbit has length {}", r, len)); }
+                            if v != Some(2 / len) || m != Some(2) { falsified("PartialDSym::v / m", format!("{} ({},{},{})", txt, i, j, d), format!("v={:?} m={:?} for an orbit of length {}", v, m, len)); } } }
+                    }
                     for k in [i, j] { if let Some(e) = ds.op(k, d) { if (r, v, m) != (ds.r(i, j, e), ds.v(i, j, e), ds.m(i, j, e)) && i.abs_diff(j) <= 1 { falsified("PartialDSym::r/v/m", format!("{} ({},{},{})", txt, i, j, d), format!("not constant along op {}", k)); } } }
                 }
                 if let Some(s) = &simple {
@@ -455,6 +461,40 @@ fn check_c05() {
                     Some(e) => if Some(proj(e)) != ds.op(i, proj(d)) { falsified("cover", txt.clone(), format!("projection does not commute with op {} at chamber {}", i, d)); },
                     None => falsified("cover", txt.clone(), format!("op({},{}) undefined in the cover", i, d)) } } }
                 for i in 0..ds.dim() { for d in 1..=c.size() { if c.m(i, i + 1, d) != ds.m(i, i + 1, proj(d)) { falsified("cover", txt.clone(), format!("degree m({},{}) not preserved at {}", i, i + 1, d)); } } }
+                // "The oriented cover is oriented and has one sheet if the base is oriented and two otherwise"
+                let (n, dim) = (ds.size(), ds.dim());
+                let loopless = (0..=dim).all(|i| (1..=n).all(|d| ds.op(i, d) != Some(d)));
+                let mut col = vec![0i8; n + 1]; let mut bip = true;
+                for s0 in 1..=n { if col[s0] != 0 { continue; } col[s0] = 1; let mut st = vec![s0];
+                    while let Some(d) = st.pop() { for i in 0..=dim { if let Some(e) = ds.op(i, d) { if e == d { continue; } if col[e] == 0 { col[e] = -col[d]; st.push(e); } else if col[e] == col[d] { bip = false; } } } } }
+                let sheets = if loopless && bip { 1 } else { 2 };
+                if c.size() != sheets * sz { falsified("oriented_cover", txt.clone(), format!("{} sheet(s), expected {}", c.size() / sz, sheets)); }
+                let c_loopless = (0..=dim).all(|i| (1..=c.size()).all(|d| c.op(i, d) != Some(d)));
+                let mut ccol = vec![0i8; c.size() + 1]; let mut cbip = true;
+                for s0 in 1..=c.size() { if ccol[s0] != 0 { continue; } ccol[s0] = 1; let mut st = vec![s0];
+                    while let Some(d) = st.pop() { for i in 0..=dim { if let Some(e) = c.op(i, d) { if e == d { continue; } if ccol[e] == 0 { ccol[e] = -ccol[d]; st.push(e); } else if ccol[e] == ccol[d] { cbip = false; } } } } }
+                if !(c_loopless && cbip) { falsified("oriented_cover", txt.clone(), "the result is not oriented (it has a mirror or an odd cycle)".into()); }
+                if ds.is_connected() && reach(&c, &(0..=dim).collect::<Vec<_>>(), 1).len() != c.size() { falsified("oriented_cover", txt.clone(), "the cover of a connected symbol is not connected".into()); }
+            }
+        }
+    }
+}
+// covers(ds, k): every returned symbol is complete, connected and maps onto the base by a morphism (operations and degrees)
+fn check_c05_covers() {
+    for s in ["<1.1:1:1,1,1:4,4>", "<1.1:1:1,1,1:3,6>", "<1.1:2:2,1 2,1 2:6,4>", "<1.1:2:2,2,2:4,3>", "<1.1:4:2 4,3 4,4 3:4,4>", "<1.1:1 3:1,1,1,1:4,3,4>", "<1.1:2:1 2,1 2,2:3 6,4>"] {
+        if let Ok(base) = s.parse::<PartialDSym>() {
+            for k in 1..=3usize {
+                match quiet(|| rust_dsymbols::covers::covers(&base, k)) {
+                    Err(e) => falsified("covers", format!("covers({}, {})", s, k), format!("panic {}", e)),
+                    Ok(cs) => { let mut seen: BTreeSet<String> = BTreeSet::new();
+                        for c in cs {
+                            let txt = format!("covers({}, {}) -> {}", s, k, c);
+                            if !c.is_complete() || reach(&c, &(0..=c.dim()).collect::<Vec<_>>(), 1).len() != c.size() { falsified("covers", txt.clone(), "not complete and connected".into()); }
+                            if c.size() % base.size() != 0 || c.size() / base.size() > k { falsified("covers", txt.clone(), format!("{} chambers over a base of {}", c.size(), base.size())); }
+                            if (1..=base.size()).all(|img| c.morphism(&base, img).map_or(true, |m| valid_morphism(&c, &base, &m).is_some() || m.iter().skip(1).any(|&x| x == 0))) { falsified("covers", txt.clone(), "does not map onto the base by a morphism".into()); }
+                            seen.insert(format!("{}", c));
+                        } }
+                }
             }
         }
     }
@@ -610,6 +650,30 @@ fn exact_det(m: &Vec<Vec<i64>>) -> i128 {
         for i in (k + 1)..n { for j in (k + 1)..n { a[i][j] = (a[i][j] * a[k][k] - a[i][k] * a[k][j]) / prev; } } prev = a[k][k]; }
     sign * a[n - 1][n - 1]
 }
+// the p-adic modular solver: whenever it returns a solution, A x = b must hold exactly over the rationals.  Stated bound: 300
+// random systems, n <= 3, entries up to 10^9 in absolute value, right-hand sides both large and tiny (shorter than every column).
+fn check_c18_modular() {
+    use num_bigint::BigInt; use num_rational::BigRational; use num_traits::Zero;
+    use rust_dsymbols::geometry::traits::Array2d;
+    let mut rng = Rng(271828);
+    for trial in 0..300 {
+        let n = 1 + rng.below(3);
+        let scale = [10i64, 1000, 1_000_003, 1_000_000_000][rng.below(4)];
+        let bscale = [1i64, 2, 1000, 1_000_000_000][rng.below(4)];
+        let data: Vec<Vec<i64>> = (0..n).map(|_| (0..n).map(|_| (rng.next() as i64 % (2 * scale + 1)) - scale).collect()).collect();
+        let bs: Vec<i64> = (0..n).map(|_| (rng.next() as i64 % (2 * bscale + 1)) - bscale).collect();
+        let r = quiet(|| { let mut a = VecMatrix::<i64>::new(n, n); for i in 0..n { for j in 0..n { a[(i, j)] = data[i][j]; } }
+                           let mut b = VecMatrix::<i64>::new(n, 1); for i in 0..n { b[(i, 0)] = bs[i]; }
+                           rust_dsymbols::geometry::modular_solver::solve(&a, &b).map(|x| (0..n).map(|i| x[(i, 0)].clone()).collect::<Vec<BigRational>>()) });
+        match r {
+            Ok(Some(x)) => { for i in 0..n { let mut acc = BigRational::zero(); for j in 0..n { acc = acc + BigRational::from_integer(BigInt::from(data[i][j])) * x[j].clone(); }
+                                 if acc != BigRational::from_integer(BigInt::from(bs[i])) { falsified("modular_solver::solve", format!("A={:?} b={:?}", data, bs), format!("returned {:?} but row {} of A x is {} instead of {}", x.iter().map(|q| q.to_string()).collect::<Vec<_>>(), i, acc, bs[i])); break; } } }
+            Ok(None) => {}
+            Err(e) => falsified("modular_solver::solve", format!("A={:?} b={:?}", data, bs), format!("panic {}", e)),
+        }
+    }
+    let _ = 0;
+}
 fn check_c18_exact() {
     let mut rng = Rng(31337);
     for n in 1..=4usize { for _ in 0..100 {
@@ -638,7 +702,7 @@ fn check_c11_random() {
         for i in 1..=ng as isize { for j in (i + 1)..=ng as isize { if j == i + 1 { rels.push(w(&[i, j, i, j, i, j])); } else { rels.push(w(&[i, j, i, j])); } } }
         let gen_perm = |g: isize| -> Vec<usize> { let k = (g.abs() - 1) as usize; let mut p: Vec<usize> = (0..n).collect(); p.swap(k, k + 1); p };
         let order: usize = (1..=n).product();
-        for _ in 0..(if n == 4 { 150 } else { 60 }) {
+        for _ in 0..(if n == 4 { 1500 } else { 300 }) {
             let nsub = 1 + rng.below(3);
             let mut sub = vec![];
             for _ in 0..nsub { let len = 1 + rng.below(4); let v: Vec<isize> = (0..len).map(|_| { let g = 1 + rng.below(ng) as isize; if rng.below(2) == 0 { g } else { -g } }).collect(); sub.push(FreeWord::from(v)); }
@@ -666,8 +730,8 @@ fn main() {
     let prop = std::env::args().nth(1).unwrap_or_default();
     std::panic::set_hook(Box::new(|_| {}));
     match prop.as_str() {
-        "C01" => check_c01(), "C02" => { check_c02(); check_c02_graph(); }, "C04" => { check_c04(); check_c04_minimal(); }, "C05" => check_c05(),
-        "C10" => check_c10(), "C11" => { check_c11(); check_c11_random(); }, "C18" => { check_c18(); check_c18_exact(); }, "C20" => { check_c20(); check_c20_unions(); },
+        "C01" => check_c01(), "C02" => { check_c02(); check_c02_graph(); }, "C04" => { check_c04(); check_c04_minimal(); }, "C05" => { check_c05(); check_c05_covers(); },
+        "C10" => check_c10(), "C11" => { check_c11(); check_c11_random(); }, "C18" => { check_c18(); check_c18_exact(); check_c18_modular(); }, "C20" => { check_c20(); check_c20_unions(); },
         _ => { eprintln!("unknown property"); std::process::exit(2); }
     }
     unsafe { println!("falsifier finished: {} discrepancies", COUNT); }
